@@ -128,6 +128,48 @@ Proof.
   apply (sequence_lookup (effective envf penv filel) tbl cfg (load_with_sequence _ _ _ _ _ Hl) Hnd e Hin).
 Qed.
 
+(* resolve is POINTWISE: the value of k depends on nothing but env k, file k and dflt k *)
+Theorem resolve_pointwise :
+  forall (K V : Type) (env1 env2 file1 file2 : K -> option V) (d1 d2 : K -> V) (k : K),
+    env1 k = env2 k -> file1 k = file2 k -> d1 k = d2 k ->
+    resolve env1 file1 d1 k = resolve env2 file2 d2 k.
+Proof.
+  intros K V env1 env2 file1 file2 d1 d2 k He Hf Hd. unfold resolve. rewrite He, Hf, Hd. reflexivity.
+Qed.
+
+(* ... and so is a loaded configuration: two start-ups that both succeed and agree on the variable of a key
+   and on the file's entry for it hold the same value for that key, however much they differ on every OTHER
+   key (log level, format, engine, switches, ...).  The only cross-key effect in the model is that Load fails
+   as a whole for a log level zerolog does not know. *)
+Theorem load_pointwise :
+  forall envf tbl penv1 filel1 penv2 filel2 cfg1 cfg2 e,
+    NoDup (map e_key tbl) -> In e tbl ->
+    load_with envf tbl penv1 filel1 = Some cfg1 ->
+    load_with envf tbl penv2 filel2 = Some cfg2 ->
+    envf penv1 (e_key e) = envf penv2 (e_key e) ->
+    lookup filel1 (e_key e) = lookup filel2 (e_key e) ->
+    lookup cfg1 (e_key e) = lookup cfg2 (e_key e).
+Proof.
+  intros envf tbl penv1 filel1 penv2 filel2 cfg1 cfg2 e Hnd Hin Hl1 Hl2 He Hf.
+  rewrite (load_value envf tbl penv1 filel1 cfg1 e Hnd Hin Hl1).
+  rewrite (load_value envf tbl penv2 filel2 cfg2 e Hnd Hin Hl2).
+  unfold effective. apply resolve_pointwise.
+  - rewrite He. reflexivity.
+  - rewrite Hf. reflexivity.
+  - reflexivity.
+Qed.
+
+Example load_pointwise_example :
+  forall cfg1 cfg2,
+    load_model [("http.auth_token", "string", "tok"); ("logging.level", "string", "debug")]
+               [("BHS_LOGGING_LEVEL", "trace")] [("http.auth_token", "s3cret")] = Some cfg1 ->
+    load_model [("http.auth_token", "string", "tok"); ("logging.level", "string", "debug")]
+               [] [("http.auth_token", "s3cret"); ("logging.level", "disabled")] = Some cfg2 ->
+    lookup cfg1 "http.auth_token" = Some "s3cret" /\ lookup cfg2 "http.auth_token" = Some "s3cret".
+Proof.
+  intros cfg1 cfg2 H1 H2. vm_compute in H1, H2. inversion H1. inversion H2. split; reflexivity.
+Qed.
+
 (* precedence for the loaded value of a key, for either reading of "the variable is set" *)
 Theorem load_precedence :
   forall envf tbl penv filel cfg e,
